@@ -250,7 +250,7 @@ CLAIMED = {
        "static queries structurally equal; 32 three-member subsumption families) and K parse+run repetitions of each "
        "program in one process plus two more processes, outcomes canonicalised, on 8 hash-order-sensitive program families "
        "and general generated programs; the error VALUES of K+3 parses of one rejected text are compared pairwise with == "
-       "(errors embed types).",
+       "(errors embed types). PROGRAM LEVEL (Thm/C05Fuel): the reference semantics assigns a program at most one outcome whatever fuel it is run with - two completed runs of a statement list, an expression or a call with different amounts of fuel end in the same value, environment, error or signal and store (program_outcome_unique, from the fuel monotonicity of all twenty evaluator functions), so the fixed fuel of the correspondence streams cannot change a verdict other than to `inconclusive`.",
   note="Lean kernel; the Ty model is hand-written (tied by the C10 type stream); only hash order is addressed as a source of nondeterminism "
        "(the language has no clock / random source besides std I/O); repetition samples hash seeds, it does not enumerate them.",
   technique="Lean 4 proof (permutation invariance of the type algebra) + repetition oracle in and across processes", ref="DESIGN.md §6 C05"),
